@@ -224,3 +224,15 @@ def check_value(v, k, col, kind):
     if kind[0] == 'last':
         return isinstance(v, TPart) and v.col == col and v.sep == kind[1] and v.j == 'last' and same(v.k, k) and not v.ops
     return False
+
+
+def first_loop_kind(I, path, qualname):
+    """'for' or 'while': the form of the first loop of the function (the table readers are written either as `for line in handle` or as
+    `while line: ... line = next(handle, None)`); a contract that follows one form answers Unsupported on the other instead of misreading it"""
+    import ast
+    fn = I.repo.function_node(path, qualname)[2]
+    loops = [n for n in ast.walk(fn) if isinstance(n, (ast.For, ast.While))]
+    if not loops:
+        raise Unsupported(f'{qualname}: no loop over the lines of the table')
+    first = min(loops, key=lambda n: (n.lineno, n.col_offset))
+    return 'while' if isinstance(first, ast.While) else 'for'
